@@ -162,6 +162,13 @@ bool QXmppMamManager::handleStanza(const QDomElement &element)
             return true;
         }
     } else if (QXmppMamResultIq::isMamResultIq(element)) {
+        // <fin/> is the result of a query. A request carrying it must not be swallowed: the
+        // client answers unhandled IQ requests with an error (RFC 6120, 8.2.3).
+        const auto iqType = element.attribute(u"type"_s);
+        if (iqType == u"get" || iqType == u"set") {
+            return false;
+        }
+
         QXmppMamResultIq result;
         result.parse(element);
         Q_EMIT resultsRecieved(result.id(), result.resultSetReply(), result.complete());
